@@ -31,7 +31,7 @@
 (***************************************************************************)
 EXTENDS Api, Json
 
-CONSTANTS Kinds, D, FamOn, WrapOn, PadOps
+CONSTANTS Kinds, D, FamOn, WrapOn, PadOps, Observe
 
 VARIABLES h, kind, wraps
 mvars == << vars, h, kind, wraps >>
@@ -75,11 +75,12 @@ RpsiCall  == { [c |-> "pt", v |-> 127], [c |-> "pt", v |-> 128],
                [c |-> "data", v |-> << 255, 170 >>, bits |-> 3, mode |-> "cow_owned"],
                [c |-> "data", v |-> << 1, 2, 3 >>, bits |-> 9, mode |-> "borrowed"] }
 RpsiHists == UNION { [1..n -> RpsiCall] : n \in 0..2 }
+Probes(a) == IF Observe THEN [i \in 1..Len(a) |-> i] ELSE <<>>      \* observe the nested builder after every add
 \* kept as five separate, homogeneous sets (TLC cannot normalise a set mixing add-lists of different element types)
 FciPart(i) ==
-    CASE i = 1 -> { [f |-> "nack", adds |-> a] : a \in (IF FamOn THEN NackHists ELSE { << 5, 6, 22 >> }) }
-      [] i = 2 -> { [f |-> "fir", adds |-> a] : a \in (IF FamOn THEN FirHists ELSE { << << A32, 7 >> >> }) }
-      [] i = 3 -> { [f |-> "sli", adds |-> a] : a \in (IF FamOn THEN SliHists ELSE { << << 1, 2, 3 >> >> }) }
+    CASE i = 1 -> { [f |-> "nack", adds |-> a, probes |-> Probes(a)] : a \in (IF FamOn THEN NackHists ELSE { << 5, 6, 22 >> }) }
+      [] i = 2 -> { [f |-> "fir", adds |-> a, probes |-> Probes(a)] : a \in (IF FamOn THEN FirHists ELSE { << << A32, 7 >> >> }) }
+      [] i = 3 -> { [f |-> "sli", adds |-> a, probes |-> Probes(a)] : a \in (IF FamOn THEN SliHists ELSE { << << 1, 2, 3 >> >> }) }
       [] i = 4 -> { [f |-> "rpsi", calls |-> a] :
                       a \in (IF FamOn THEN RpsiHists ELSE { << [c |-> "data", v |-> << 240 >>, bits |-> 4, mode |-> "borrowed"] >> }) }
       [] i = 5 -> { [f |-> "pli"] }
@@ -295,7 +296,13 @@ RejectedUnrepresentable ==
 
 -----------------------------------------------------------------------------
 (* the script: calls, wrappers, then a fixed battery of observations *)
-CallOps == << [op |-> "call", kind |-> kind, c |-> h[1]] >> \o [i \in 1..(Len(h) - 1) |-> [op |-> "call", c |-> h[i + 1]]]
+\* with Observe the builder is observed (size asked) after EVERY call and then configured further: the later
+\* observations are made on an instance that has been observed before (stale caches, C06 / C20)
+CallOps ==
+    IF Observe
+    THEN << [op |-> "call", kind |-> kind, c |-> h[1]], [op |-> "calc_size"] >>
+         \o Flat([i \in 1..(Len(h) - 1) |-> << [op |-> "call", c |-> h[i + 1]], [op |-> "calc_size"] >>])
+    ELSE << [op |-> "call", kind |-> kind, c |-> h[1]] >> \o [i \in 1..(Len(h) - 1) |-> [op |-> "call", c |-> h[i + 1]]]
 WrapOps == [i \in 1..Len(wraps) |-> [op |-> "wrap", how |-> wraps[i]]]
 ParseOps ==
     LET c == Cfg
